@@ -117,6 +117,37 @@ def replay_expr(cell):
     return src, pair(env, src, data, analysis=cell["val"] in ("str", "missing"))
 
 
+def interrupt_source(cell):
+    I = "{% " + cell["interrupt"] + " %}"
+    pb = {"pb": f"A{I}B"}
+    via = cell["via"]
+    inner = {
+        "include": "{% include 'pb' %}", "include_arg": "{% include 'pb', v: i %}", "include_with": "{% include 'pb' with i as v %}",
+        "include_for": "{% include 'pb' for arr as v %}",
+        "render": "{% render 'pb' %}", "render_arg": "{% render 'pb', v: i %}", "render_with": "{% render 'pb' with i as v %}",
+        "render_for": "{% render 'pb' for arr as v %}",
+        "call": f"{{% macro m %}}A{I}B{{% endmacro %}}{{% call m %}}",
+        "block": f"{{% block b %}}A{I}B{{% endblock %}}",
+        "with": f"{{% with v: 1 %}}A{I}B{{% endwith %}}", "if": f"{{% if true %}}A{I}B{{% endif %}}",
+        "case": f"{{% case 1 %}}{{% when 1 %}}A{I}B{{% endcase %}}", "capture": f"{{% capture c %}}A{I}B{{% endcapture %}}<{{{{ c }}}}>",
+        "liquid": "{% liquid\n echo 'A'\n " + cell["interrupt"] + "\n echo 'B'\n%}",
+    }[via]
+    body = f"[{{{{ i }}}}{inner}]"
+    if cell["caller"] == "for":
+        src = f"{{% for i in (1..3) %}}{body}{{% endfor %}}|end"
+    elif cell["caller"] == "tablerow":
+        src = f"{{% tablerow i in (1..3) %}}{body}{{% endtablerow %}}|end"
+    else:
+        src = body + "|end"
+    return src, pb
+
+
+def replay_interrupt(cell):
+    src, pb = interrupt_source(cell)
+    env = harness.make_env(templates=pb, mode=cell["mode"])
+    return src, pair(env, src, {"arr": ["p", "q"], "i": 0})
+
+
 # ---------------------------------------------------------------------------------------------------------------------------------
 def _world(kind, root):
     """files/partials: a, dir/a, dir/sub/a, a.html, base  in namespaces '', n1  ->  (loader, cleanup)"""
@@ -176,19 +207,21 @@ def replay_loader(cell):
             elif cell["ns"] == "context":
                 glob["ns"] = "n1"
             order = cell["order"] if first == "sync" else [("async" if m == "sync" else "sync") for m in cell["order"]]
-            last = {}
-            for mode in order:
-                last[mode] = _load(env, name, kw, glob, mode, cell["use"])
-            results[first] = last
-        for a, b in ((results["sync"].get("sync"), results["sync"].get("async")), (results["async"].get("sync"), results["async"].get("async"))):
-            if a and b:
-                obs.append({"kind": "load", "s": a, "a": b})
-        # the same position in the request sequence, reached by the other API
-        for mode in ("sync", "async"):
-            other = "async" if mode == "sync" else "sync"
-            a, b = results["sync"].get(mode), results["async"].get(other)
-            if a and b:
-                obs.append({"kind": "load", "s": a if mode == "sync" else b, "a": b if mode == "sync" else a})
+            seq = []
+            for idx, mode in enumerate(order):
+                g = glob if (idx == 0 or cell["globs"] == "every") else {k: v for k, v in glob.items() if k == "ns"}
+                seq.append((mode, _load(env, name, kw, g, mode, cell["use"])))
+            results[first] = seq
+        # the same position of the same request sequence, reached through the other API (the two worlds are driven in mirrored order)
+        for (m1, r1), (m2, r2) in zip(results["sync"], results["async"]):
+            obs.append({"kind": "load", "s": r1 if m1 == "sync" else r2, "a": r2 if m1 == "sync" else r1})
+        if cell["globs"] == "every":
+            # identical requests within one world: the last sync answer and the last async answer
+            for seq in results.values():
+                a = next((r for m, r in reversed(seq) if m == "sync"), None)
+                b = next((r for m, r in reversed(seq) if m == "async"), None)
+                if a and b:
+                    obs.append({"kind": "load", "s": a, "a": b})
     finally:
         shutil.rmtree(root, ignore_errors=True)
         sys.modules.pop("pkg_c01", None)
@@ -293,7 +326,9 @@ def run(tier: str) -> int:
                       "source, output of get_template vs get_template_async; C: RoundTrip.tla, Loops.tla and Scope.tla programs; all observations "
                       "judged by SyncAsyncMonitor.tla (SameStatus, SameOutput, SameTemplate, SameAnalysis, OnlyLiquid)")
     rs = run_many([("SyncAsync", "cfg/SyncAsync_expr.cfg", dict(workers=1, timeout=1800)),
-                   ("SyncAsync", "cfg/SyncAsync_loader.cfg", dict(workers=1, timeout=1800))], parallel=2)
+                   ("SyncAsync", "cfg/SyncAsync_loader.cfg", dict(workers=1, timeout=1800)),
+                   ("SyncAsync", "cfg/SyncAsync_interrupt.cfg", dict(workers=1, timeout=1800))], parallel=3)
+    ck.tlc("SyncAsync interrupt cells", rs[2])
     ck.tlc("SyncAsync expr cells", rs[0])
     ck.tlc("SyncAsync loader cells", rs[1])
     observations, meta = [], []
@@ -304,9 +339,15 @@ def run(tier: str) -> int:
         for o in obs:
             observations.append(o)
             meta.append(("expr", f"{cell['carrier']}:{cell['expr']}:{cell['val']}", {"source": src, "cell": cell}))
+    for cell, (src, obs) in zip(rs[2].emitted, par.pmap(replay_interrupt, rs[2].emitted, chunk=32)):
+        ck.case(("interrupt", json.dumps(cell, sort_keys=True)))
+        ck.validated()
+        for o in obs:
+            observations.append(o)
+            meta.append(("interrupt", f"{cell['caller']}:{cell['via']}:{cell['interrupt']}:{cell['mode']}", {"source": src, "cell": cell}))
     lcells = rs[1].emitted
-    if tier == "quick" and len(lcells) > 1200:
-        lcells = rnd.sample(lcells, 1200)
+    if tier == "quick" and len(lcells) > 1600:
+        lcells = rnd.sample(lcells, 1600)
     for cell, obs in zip(lcells, par.pmap(replay_loader, lcells, chunk=16)):
         ck.case(("loader", json.dumps(cell, sort_keys=True)))
         ck.validated()
